@@ -136,7 +136,7 @@ def _molecule_case(draw, broken=False):
     elif atomid_mode == 'perm':
         atomids = list(draw(st.permutations(list(range(1, n + 1)))))
     elif atomid_mode == 'sparse':
-        atomids = draw(st.lists(st.integers(-5, 100000), min_size=n, max_size=n, unique=True))
+        atomids = draw(st.lists(st.one_of(st.integers(-5, 30), st.integers(-5, 100000)), min_size=n, max_size=n, unique=True))
     else:
         atomids = draw(st.lists(st.one_of(st.none(), st.integers(1, n)), min_size=n, max_size=n))
 
@@ -788,7 +788,7 @@ def _run_contract(case):
 
 PARTS = [
     Part('main', _run_main, strategy=_strategy_main,
-         examples={'quick': 4800, 'thorough': 100000},
+         examples={'quick': 4000, 'thorough': 100000},
          floors={'atomid-perm-nonidentity': 0.15, 'guarded': 0.2, 'virtual_sitesn': 0.08,
                  'impropers+dihedrals': 0.03, 'exact-duplicate': 0.03, 'several-groups-in-section': 0.15,
                  'comment': 0.2, 'blank-charge-mass': 0.1, 'read_itp-compared': 0.15, 'atomid-partial': 0.04,
